@@ -183,7 +183,9 @@ def _f(x):
 class CellGeom:
     """Supporting hyperplanes of straight convex cells in integer coordinates."""
 
-    def __init__(self, kind, A, t):
+    def __init__(self, kind, A, t, slack=0.0):
+        """`slack`: absolute rounding noise of one coordinate divided by TOL, in the integer unit; added to the
+        cell diameter so that TOL * scale = |n| * (TOL * h + noise)."""
         self.kind = kind
         self.D = D = A.shape[0]
         self.t = t
@@ -205,7 +207,7 @@ class CellGeom:
             edges = [V[:, F[i]] - a for i in range(1, D)]
             n = _normal(edges, D, a)
             g = _dot(n, ssum - self.nvl * a)          # nvl * g(centroid): != 0 for a non-degenerate cell
-            fs = np.sqrt(sum(_f(c) ** 2 for c in n)) * self.h
+            fs = np.sqrt(sum(_f(c) ** 2 for c in n)) * (self.h + slack)
             for extra in F[D:]:
                 off = _dot(n, V[:, extra] - a)
                 planar &= (off == 0)
@@ -427,7 +429,8 @@ def second_order_nodes(mesh, kind):
     want = np.einsum("vj,dvc->djc", N, V)                     # (D, nloc, nt)
     got = P[:, ed]                                            # (D, nloc, nt)
     h = np.linalg.norm(V.max(axis=1) - V.min(axis=1), axis=0)  # (nt,)
-    err = np.linalg.norm(got - want, axis=0) / h[None, :]
+    noise = 16 * 2.0 ** -52 * float(np.abs(P).max())           # rounding of a mapped node: relative to |x|
+    err = np.maximum(np.linalg.norm(got - want, axis=0) - noise, 0.0) / h[None, :]
     return float(err.max()), int(ed.max()) + 1
 
 
@@ -511,8 +514,14 @@ def judge(ctx, parent, child, k, records, kind, tag, history="single"):
         ctx.check("no-duplicate-vertices", np.unique(allp, axis=1).shape[1] == allp.shape[1],
                   mech=mk("duplicate-nodes"), **info)
 
-    gp = CellGeom(kind, Ap, tp)
-    gc = CellGeom(kind, Ac, tc)
+    # PITFALL (tolerant mode only): the rounding error of a computed midpoint is relative to the magnitude of the
+    # coordinates, not to the cell size (offset -955, h = 0.02 after smoothing: 4e-12 h); the distance tolerance
+    # is therefore TOL * h + 8 ulp(max |x|), and the measure tolerance 1e-10 + 64 ulp(max |x|) / h_min.
+    xmax = float(np.abs(Pc).max()) if Pc.size else 0.0
+    noise_abs = 8 * 2.0 ** -52 * xmax * 2.0 ** E                   # integer units
+    gp = CellGeom(kind, Ap, tp, slack=noise_abs / TOL)
+    gc = CellGeom(kind, Ac, tc, slack=noise_abs / TOL)
+    rtol_meas = 1e-10 + 8 * noise_abs / max(float(gc.h.min()), 1e-300)
     if gp.flat.any() or (kind == "hex" and not _planar_ok(gp, tol)):
         raise Skip("parent-not-straight-convex")       # generator outside the quantifier
 
@@ -597,7 +606,7 @@ def judge(ctx, parent, child, k, records, kind, tag, history="single"):
     if tol == 0.0:
         badm = np.nonzero(sums != gpm_o)[0]
     else:
-        badm = np.nonzero(np.abs(_f(sums) - _f(gpm_o)) > 1e-10 * _f(gpm_o))[0]
+        badm = np.nonzero(np.abs(_f(sums) - _f(gpm_o)) > rtol_meas * _f(gpm_o))[0]
     ctx.check("children-measure", badm.size == 0, mech=mk("children-measure"),
               first_bad_parent=lambda: int(badm[0]),
               ratio=lambda: float(sums[badm[0]]) / float(gpm_o[badm[0]]), **info)
@@ -677,7 +686,7 @@ def judge(ctx, parent, child, k, records, kind, tag, history="single"):
             acc[kp] = acc.get(kp, 0) + proj[i]
             ful[kp] = full[i]
         for kp, v in acc.items():
-            if (v != ful[kp]) if tol == 0.0 else (abs(float(v) - float(ful[kp])) > 1e-10 * float(ful[kp])):
+            if (v != ful[kp]) if tol == 0.0 else (abs(float(v) - float(ful[kp])) > rtol_meas * float(ful[kp])):
                 meas_bad.append(kp)
     ctx.check("facets-subdivide-parent-facets", not count_bad and not meas_bad,
               mech=mk("parent-facet-not-tiled"), wrong_count=lambda: count_bad[:3],
@@ -986,12 +995,12 @@ def pick_k(rng, kind, nt, cap):
 def uniform_case(kind):
     def fn(ctx, k_):
         rng = ctx.rng()
-        nmax = ctx.scale({"line": 10, "tri": 24, "quad": 16, "tet": 10, "hex": 6}[kind],
-                         {"line": 40, "tri": 90, "quad": 60, "tet": 40, "hex": 20}[kind])
+        nmax = ctx.scale({"line": 16, "tri": 48, "quad": 36, "tet": 24, "hex": 12}[kind],
+                         {"line": 40, "tri": 120, "quad": 80, "tet": 60, "hex": 27}[kind])
         m, desc = base_mesh(ctx, rng, kind, nmax)
         m, tdesc = add_tags(ctx, rng, m)
-        cap = ctx.scale({"line": 200, "tri": 700, "quad": 500, "tet": 700, "hex": 400}[kind],
-                        {"line": 400, "tri": 3000, "quad": 2500, "tet": 3000, "hex": 1500}[kind])
+        cap = ctx.scale({"line": 200, "tri": 1600, "quad": 1200, "tet": 1600, "hex": 800}[kind],
+                        {"line": 400, "tri": 4000, "quad": 3000, "tet": 4000, "hex": 1800}[kind])
         k = pick_k(rng, kind, m.t.shape[1], cap)
         tag = dict(desc, tags=tdesc)
         child, recs = refine(m, k)
@@ -1016,11 +1025,11 @@ def uniform_case(kind):
 def second_order_case(ctx, k_):
     rng = ctx.rng()
     kind = ("tri", "quad", "tet", "hex")[k_ % 4]
-    nmax = ctx.scale({"tri": 14, "quad": 10, "tet": 8, "hex": 4}[kind], {"tri": 50, "quad": 36, "tet": 24, "hex": 10}[kind])
+    nmax = ctx.scale({"tri": 24, "quad": 16, "tet": 12, "hex": 6}[kind], {"tri": 60, "quad": 40, "tet": 30, "hex": 12}[kind])
     m1, desc = base_mesh(ctx, rng, kind, nmax, allow_inexact=bool(k_ % 3 == 0))
     m2 = G.mesh_class(kind, 2).from_mesh(m1)
     m2, tdesc = add_tags(ctx, rng, m2)
-    cap = ctx.scale(400, 1500)
+    cap = ctx.scale(800, 2000)
     k = pick_k(rng, kind, m2.t.shape[1], cap)
     tag = dict(desc, order=2, tags=tdesc)
     child, recs = refine(m2, k)
@@ -1037,8 +1046,8 @@ def history_case(ctx, k_):
     own input, so a defect of the interleaved operation itself is not attributed to C12."""
     rng = ctx.rng()
     kind = ("line", "tri", "quad", "tet", "hex")[k_ % 5]
-    nmax = ctx.scale({"line": 6, "tri": 8, "quad": 6, "tet": 4, "hex": 2}[kind],
-                     {"line": 12, "tri": 20, "quad": 14, "tet": 8, "hex": 4}[kind])
+    nmax = ctx.scale({"line": 8, "tri": 12, "quad": 8, "tet": 6, "hex": 3}[kind],
+                     {"line": 12, "tri": 24, "quad": 16, "tet": 10, "hex": 4}[kind])
     order2 = kind != "line" and rng.random() < 0.25
     m, desc = base_mesh(ctx, rng, kind, nmax, allow_inexact=False)
     if order2:
@@ -1046,7 +1055,7 @@ def history_case(ctx, k_):
     m, tdesc = add_tags(ctx, rng, m)
     nsteps = int(rng.integers(2, 4))
     shape = []
-    cap = ctx.scale(500, 2500)
+    cap = ctx.scale(1000, 3000)
     for step in range(nsteps):
         if m.t.shape[1] * NCHILD[kind] > cap:
             break
@@ -1071,6 +1080,17 @@ def history_case(ctx, k_):
         shape.append(op)
         ctx.reached("history:" + op)
     ctx.sample({"mesh": cls_name(m), "desc": desc, "history": shape, "final_cells": int(m.t.shape[1])}, per_family=1)
+
+
+def orient_signs(m, kind):
+    """Signs of det DF (simplices: one per cell; tensor cells: at every reference corner), float arithmetic."""
+    P = np.asarray(m.p)
+    t = np.asarray(m.t)[:G.NVERT[kind]]
+    V = P[:, t]
+    if kind in ("line", "tri", "tet"):
+        cols = [V[:, i + 1] - V[:, 0] for i in range(V.shape[0])]
+        return np.sign(_det(cols))
+    return np.stack([np.sign(_det([V[:, hi] - V[:, lo] for hi, lo in row])) for row in CORNER_AXES[kind]])
 
 
 def apply_op(ctx, rng, m, op, kind, order2):
@@ -1108,7 +1128,13 @@ def apply_op(ctx, rng, m, op, kind, order2):
     if op == "smoothed":
         if order2 or kind == "line":
             return None
-        return m.smoothed()
+        m2 = m.smoothed()
+        # PITFALL: Laplacian smoothing may fold cells over each other; such a mesh is not a mesh any more (a child
+        # then lies in two parents) and is outside the quantifier: keep the result only if no Jacobian changed sign
+        if not np.array_equal(orient_signs(m, kind), orient_signs(m2, kind)):
+            ctx.drop("smoothing-folded-the-mesh")
+            return None
+        return m2
     raise ValueError(op)
 
 
@@ -1211,8 +1237,8 @@ def docs_case(ctx, k_):
 
 FAMILIES = [Family("directed", directed_case, N_DIRECTED, N_DIRECTED, budget={"quick": 60, "thorough": 120})]
 FAMILIES += [Family("uniform-" + kd, uniform_case(kd), quick=q, thorough=th)
-             for kd, q, th in (("line", 120, 4800), ("tri", 160, 6400), ("quad", 120, 4800), ("tet", 80, 3200),
-                               ("hex", 48, 1920))]
-FAMILIES += [Family("second-order", second_order_case, 96, 3840),
-             Family("histories", history_case, 120, 4800),
+             for kd, q, th in (("line", 200, 8000), ("tri", 320, 12800), ("quad", 240, 9600), ("tet", 160, 6400),
+                               ("hex", 100, 4000))]
+FAMILIES += [Family("second-order", second_order_case, 200, 8000),
+             Family("histories", history_case, 240, 9600),
              Family("docs-meshes", docs_case, 24, 24, budget={"quick": 60, "thorough": 240})]
